@@ -101,8 +101,55 @@ def small_exhaustive(limit):
     return n, None
 
 
+def scope_histories():
+    """History dimension (seed C02-5): the *same* content call, with explicit
+    options and an inherited encoding, repeated under successive containers
+    whose effective encodings differ - whatever a writer remembers from one
+    scope must not reach the next (pop back to the parent, sibling with
+    another encoding, file level and change level)."""
+    n = 0
+    encs = ['utf-8', 'utf-16', 'latin-1', 'utf-32-be']
+    for main, a, b, le, indent in itertools.product(
+            encs, [None] + encs, [None] + encs, ['unix', 'dos', None],
+            [0, 2]):
+        pkw = {'indent': indent}
+        dkw = {}
+        if le:
+            pkw['line_endings'] = le
+            dkw['line_endings'] = le
+
+        def body(tag):
+            return [('write_preamble', ['p%s\nq' % tag], dict(pkw)),
+                    ('write_meta', [{'m': tag}], {})]
+        calls = [('__init__', [], {'encoding': main}),
+                 ('write_preamble', ['top\nx'], dict(pkw))]
+        calls += [('new_change', [], {'encoding': a} if a else {})] + \
+            body('1')
+        calls += [('new_file', [], {'encoding': b} if b else {}),
+                  ('write_meta', [{'f': 1}], {}),
+                  ('write_diff', [b'-a\n+b\n'], dict(dkw)),
+                  ('new_file', [], {}),
+                  ('write_meta', [{'f': 2}], {}),
+                  ('write_diff', [b'-c\n+d\n'], dict(dkw))]
+        calls += [('new_change', [], {'encoding': b} if b else {})] + \
+            body('2')
+        calls += [('new_file', [], {}), ('write_meta', [{'f': 3}], {})]
+        calls += [('new_change', [], {})] + body('3')
+        calls += [('new_file', [], {'encoding': a} if a else {}),
+                  ('write_meta', [{'f': 4}], {})]
+        n += 1
+        w = check_calls(calls)
+        if w:
+            return n, w
+    return n, None
+
+
 def bounded(seed, nrandom, limit, want_bytes, want_records):
     n, w = small_exhaustive(limit)
+    if w:
+        return {'evaluations': n, 'witness': w}
+    n2, w = scope_histories()
+    n += n2
     if w:
         return {'evaluations': n, 'witness': w}
     rng = random.Random(seed)
